@@ -304,7 +304,10 @@ class Report:
         cov["known_findings_reproduced"] = sorted(self.known_hit.keys())
         ev = dict(property_id=self.pid, tier=self.tier, seed=self.seed, level=level, coverage=cov,
                   assumptions=self.assumptions, wall_s=round(wall, 2), violations=nviol)
-        json.dump(ev, open(os.path.join(VERIF, "evidence", self.pid + ".json"), "w"), indent=1, default=str)
+        # a replay of one recorded input must not replace the evidence of the last full run
+        out = os.path.join(VERIF, "evidence", "replays", self.pid + "-last-replay.json") if getattr(self, "is_replay", False) \
+            else os.path.join(VERIF, "evidence", self.pid + ".json")
+        json.dump(ev, open(out, "w"), indent=1, default=str)
         sys.stdout.flush()
         return 1 if nviol else 0
 
